@@ -81,12 +81,12 @@ def build_items(r, thorough):
       opt.append((sig, v, pick_shapes(r, sig, v, 5, 3, 50)))
   else:
     hot = [s for s in small if s.P and s.kw]
-    for sig in r.sample(hot, 40) + r.sample(small, 120):
+    for sig in r.sample(hot, 30) + r.sample(small, 90):
       req.append((sig, "func", pick_shapes(r, sig, "func", 3, 2, 6)))
     for v in g.VARIANTS[1:]:
-      for sig in r.sample(small, 22):
+      for sig in r.sample(small, 16):
         req.append((sig, v, pick_shapes(r, sig, v, 3, 2, 6)))
-    for sig in r.sample(g.enum_sigs(3), 10):         # a few larger ones
+    for sig in r.sample(g.enum_sigs(3), 8):          # a few larger ones
       req.append((sig, "func", pick_shapes(r, sig, "func", 5, 3, 16)))
     for n in range(400):
       sig = r.choice(small)
@@ -144,7 +144,7 @@ def describe(sig, variant, shape):
 
 
 def observe_one(sig, variant, shape):
-  cres, pres = g.run_group([(sig, variant, [shape])])
+  cres, pres, _ = g.run_group([(sig, variant, [shape])])
   return cres[0][0][0], pres[0][0]
 
 
@@ -247,7 +247,7 @@ def run(res):
   n_total = len(model)
 
   nw = min(8, max(2, common.NCPU // 2)) if thorough else 4
-  soft, hard = (700.0, 840.0) if thorough else (42.0, 75.0)   # optional modules stop at soft, required ones at hard
+  soft, hard = (700.0, 2400.0) if thorough else (36.0, 600.0)   # optional modules stop at soft; required ones must finish
   t0 = time.time()
   ctx = multiprocessing.get_context("fork")
   done = []
@@ -269,7 +269,7 @@ def run(res):
   res.extra["groups_done"] = "%d done, %d required, %d generated" % (len(done), n_required, len(groups))
 
   hist = collections.Counter()
-  n_c = n_bind = n_un = n_fx = n_wf = n_unexpl = n_bind_div = n_sep = 0
+  n_c = n_bind = n_un = n_fx = n_wf = n_unexpl = n_bind_div = n_sep = n_stray = 0
   oracle_known = []
   oracle_other = collections.OrderedDict()
   first_bad = {}
@@ -279,7 +279,10 @@ def run(res):
   for gi, grp in enumerate(groups):
     if gi >= len(done):
       break
-    cres, pres = done[gi]
+    cres, pres, stray = done[gi]
+    if stray:
+      n_stray += len(stray)
+      first_bad.setdefault("stray", stray[0])
     for j, (sig, variant, shapes) in enumerate(grp):
       e = g.effective(sig, variant)
       for k, sh in enumerate(shapes):
@@ -343,6 +346,8 @@ def run(res):
   res.obligation("cases-completed", complete,
                  "%d cases analysed within the time budget (modules: %s)" % (n_seen, res.extra["groups_done"]))
   res.obligation("explorable", n_unexpl == 0, "%d cases could not be analysed: %s" % (n_unexpl, first_bad.get("unexplorable", "")))
+  res.obligation("no-errors-outside-the-call-lines", n_stray == 0,
+                 "%d errors reported elsewhere in the generated modules; first: %s" % (n_stray, first_bad.get("stray", "")))
   res.obligation("hypotheses:wf_sig-and-wf_shape-hold", n_wf == 0,
                  "%d generated cases violate wf_sig/wf_shape: %s" % (n_wf, first_bad.get("wf", "")))
   res.obligation("correspondence:bind_c-vs-CPython-call", n_c == 0,
